@@ -436,12 +436,61 @@ def e2e(ctx):
                                  detail=f"{route_name(route)}; variant {var['label']}")
 
 
+def auto_piece_length(ctx):
+    """
+    aimed sequence: no piece length given.  The automatically chosen piece length (part of info) must be a function of the payload
+    alone: the same relative path string seen earlier in the process for a SMALLER payload (another working directory), and a
+    payload that GREW across a piece-length threshold (1000 x 16 KiB) since an earlier create, must give the same info as a
+    byte-identical copy created through an absolute path.
+    """
+    core.use_repo_in_process()
+    from torrentfile import torrent
+    big = 1000 * 16384 + 4096            # just above the first threshold: 32 KiB pieces
+    with core.Scratch("vc08a_") as tmp:
+        tmp = os.path.realpath(tmp)
+
+        def mk(d, size):
+            os.makedirs(os.path.join(d, "data"))
+            with open(os.path.join(d, "data", "f"), "wb") as fd:
+                fd.write(b"x" * 10)
+            with open(os.path.join(d, "data", "sparse.img"), "wb") as fd:
+                fd.truncate(size)          # a hole: nothing large is written
+        mk(os.path.join(tmp, "A"), 1000)
+        mk(os.path.join(tmp, "B"), big)
+        mk(os.path.join(tmp, "C"), big)
+        for cls in ("TorrentFile", "TorrentFileV2", "TorrentFileHybrid", "TorrentAssembler"):
+            def create(cwd, spelling, out, cls=cls):
+                with cc.patched(cwd=cwd, clock=1):
+                    kw = {"meta_version": "3"} if cls == "TorrentAssembler" else {}
+                    t = trees.quiet(getattr(torrent, cls), path=spelling, progress=0, **kw)
+                    o, _ = trees.quiet(t.write, out)
+                    return oracle.read(o)
+            try:
+                create(os.path.join(tmp, "A"), "data", os.path.join(tmp, "a.torrent"))
+                rel = create(os.path.join(tmp, "B"), "data", os.path.join(tmp, "b.torrent"))
+                ref = create(tmp, os.path.join(tmp, "C", "data"), os.path.join(tmp, "c.torrent"))
+                # the tree at A grows across the threshold, then is created again through the very same path string
+                os.truncate(os.path.join(tmp, "A", "data", "sparse.img"), big)
+                grown = create(os.path.join(tmp, "A"), "data", os.path.join(tmp, "a2.torrent"))
+            except Exception as e:  # noqa
+                ctx.fail("auto-piece-length-create-raised", {"creator": cls}, "metafiles", f"{type(e).__name__}: {e}")
+                continue
+            for label, raw in (("same relative path string as an earlier, smaller payload in another working directory", rel),
+                               ("payload grown across the threshold since an earlier create of the same path", grown)):
+                ctx.case(key=("auto-pl", cls, label), classes=["automatic piece length across a threshold", "creator " + cls], nontrivial=True)
+                probs = compare(ref, raw, ())
+                for kind, exp, obs in probs:
+                    ctx.fail(f"{kind}:automatic piece length", {"creator": cls, "sequence": label, "payload": {"f": 10, "sparse.img": big},
+                                                                  "piece_length": "automatic"}, exp, obs)
+
+
 def run(ctx, model_ok):
     cc.pathsem(ctx, model_ok)
     quick = ctx.tier == "quick"
     cc.unit(ctx, model_ok, n=192 if quick else 960, budget=110000 if quick else 300000)
     cc.require_classes(ctx)          # Appendix B: the correspondence generator itself must hit every class twice
     e2e(ctx)
+    auto_piece_length(ctx)
 
 
 def classify(failure):
